@@ -127,7 +127,17 @@ def _fault(rng):
 
 def generate(rng, tier, idx):
     n_models = rng.choice([1, 1, 2, 2, 3, 4])
-    pop = [_model_spec(rng, 'm%d' % i, tier) for i in range(n_models)]
+    if rng.random() < 0.25 and n_models >= 2:
+        # several live objects of ONE class (state shared between objects of a class, or keyed
+        # by something that does not identify the object, shows between such neighbours)
+        first = _model_spec(rng, 'm0', tier)
+        pop = [first] + [_model_spec(rng, 'm%d' % i, tier, force_cls=first['cls'])
+                         for i in range(1, n_models)]
+        for p in pop[1:]:
+            if 'vine_type' in first['ctor']:
+                p['ctor']['vine_type'] = first['ctor']['vine_type']
+    else:
+        pop = [_model_spec(rng, 'm%d' % i, tier) for i in range(n_models)]
     ops = []
     n_ops = rng.randint(4, 16)
     fault_rate = rng.choice([0.0, 0.0, 0.15, 0.3])
